@@ -4,7 +4,7 @@
 S="$1"
 exec flock /tmp/wt/seed_eval.lock sh -c '
 cd /tmp/wt/confirm && git checkout -q --detach $(git -C /repo rev-parse HEAD) && git checkout -- . && git clean -fdq -e target
-mkdir -p out/1 && cp '"$S"'/demo.sh out/1/ && chmod +x out/1/demo.sh
+mkdir -p out/1 && cp '"$S"'/demo.* out/1/ && chmod +x out/1/demo.sh
 sh out/1/demo.sh >/tmp/q/demo_head.log 2>&1; echo "HEAD demo exit $?"
 git apply '"$S"'/patch.diff || exit 3
 cargo test --offline 2>&1 | grep "^test result" | head -2
